@@ -190,6 +190,16 @@ pub fn random_doc(r: &mut Rng) -> Value {
             root.insert(format!("{}{}", key, FLAT), Value::from(arr));
         }
     }
+    if r.chance(1, 12) {
+        // a long array (more elements than the default cache capacities, long enough for size-dependent
+        // paths of the edit-script encoder)
+        let n = 16 + r.below(20);
+        let arr: Vec<Value> = (0..n).map(|i| json!({"_id": format!("n{}", i), "v": i})).collect();
+        for i in 0..n {
+            used.insert(format!("n{}", i));
+        }
+        root.insert(format!("l{}", FLAT), Value::from(arr));
+    }
     if r.chance(1, 3) {
         root.insert(format!("o{}", FLAT), flat_obj(r, &mut used));
     }
